@@ -370,6 +370,25 @@ func init() {
 		Variant{Name: "policy list abbreviated for the log on a copy", Property: "C15", File: "config/config.go", Benign: true,
 			Old: "func (l LoggingConfig) GetThrottleMaxRPS() float64 {\n\tif l.ThrottleMaxRPS > 0 {\n\t\treturn l.ThrottleMaxRPS\n\t}\n\treturn DefaultLoggingThrottleMaxRPS\n}\n", New: "func (l LoggingConfig) GetThrottleMaxRPS() float64 {\n\tif l.ThrottleMaxRPS > 0 {\n\t\treturn l.ThrottleMaxRPS\n\t}\n\treturn DefaultLoggingThrottleMaxRPS\n}\n\n// LoggedMethods abbreviates the allowed-method list for the startup log.\nfunc (p ACLPolicy) LoggedMethods() []string {\n\tentries := p.AllowedMethods.AdminService\n\tif len(entries) <= 10 {\n\t\treturn entries\n\t}\n\tout := make([]string, 0, 11)\n\tout = append(out, entries[:10]...)\n\treturn append(out, \"...\")\n}\n"},
 	)
+	// ---- round 12
+	addVariants(
+		Variant{Name: "TLS wrapper applied only when the dial took one attempt", Property: "C19", File: "transport/mux/establisher.go",
+			Old: "\t\tclient, err = net.DialTimeout(\"tcp\", p.serverAddress, 5*time.Second)\n\t\tif err != nil {\n\t\t\treturn err\n\t\t}\n\t\tclient = p.tlsWrapper(client)\n\t\treturn nil\n", New: "\t\tclient, err = net.DialTimeout(\"tcp\", p.serverAddress, 5*time.Second)\n\t\treturn err\n", Expect: "O19.11"},
+		Variant{Name: "dialled connection wrapped through a local", Property: "C19", File: "transport/mux/establisher.go", Benign: true,
+			Old: "\t\tclient, err = net.DialTimeout(\"tcp\", p.serverAddress, 5*time.Second)\n\t\tif err != nil {\n\t\t\treturn err\n\t\t}\n\t\tclient = p.tlsWrapper(client)\n\t\treturn nil\n", New: "\t\traw, err := net.DialTimeout(\"tcp\", p.serverAddress, 5*time.Second)\n\t\tif err != nil {\n\t\t\treturn err\n\t\t}\n\t\tclient = p.tlsWrapper(raw)\n\t\treturn nil\n"},
+		Variant{Name: "intra-proxy streams get the translating wrapper too", Property: "C12", File: "interceptor/translation_interceptor.go",
+			Old: "\tif common.IsIntraProxy(ss.Context()) {\n\t\terr := handler(srv, ss)\n", New: "\tif common.IsIntraProxy(ss.Context()) {\n\t\terr := handler(srv, newStreamTranslator(ss, i.logger, i.translators))\n", Expect: "O12.13"},
+		Variant{Name: "receiver used for an ack without a test of its stream", Property: "C08", File: "proxy/intra_proxy_router.go",
+			Old: "\t\tif r, ok2 := ps.receivers[key]; ok2 && r != nil && r.streamClient != nil {\n", New: "\t\tif r, ok2 := ps.receivers[key]; ok2 && r != nil {\n", Expect: "O8.19"},
+		Variant{Name: "receiver's stream tested in a nested if", Property: "C08", File: "proxy/intra_proxy_router.go", Benign: true,
+			Old: "\t\tif r, ok2 := ps.receivers[key]; ok2 && r != nil && r.streamClient != nil {\n", New: "\t\tif r, ok2 := ps.receivers[key]; ok2 && r != nil {\n\t\t\tif r.streamClient == nil {\n\t\t\t\treturn fmt.Errorf(\"peer stream not open\")\n\t\t\t}\n"},
+		Variant{Name: "blobs of a single event are not walked", Property: "C13", File: "interceptor/reflection.go",
+			Old: "\tm, err := visitor(logger, events, match)\n\tmatched = matched || m\n", New: "\tif len(events) == 1 && !changed {\n\t\treturn blob, matched, changed, nil\n\t}\n\tm, err := visitor(logger, events, match)\n\tmatched = matched || m\n", Expect: "O13.14"},
+		Variant{Name: "repair decodes the first buffer of the payload only", Property: "C18", File: "proto/compat/codec.go",
+			Old: "\t\terr := convertAndRepairInvalidUTF8(data.Materialize(), v)\n", New: "\t\terr := convertAndRepairInvalidUTF8(data[0].ReadOnlyData(), v)\n", Expect: "O18.9"},
+		Variant{Name: "materialised payload kept in a local", Property: "C18", File: "proto/compat/codec.go", Benign: true,
+			Old: "\t\terr := convertAndRepairInvalidUTF8(data.Materialize(), v)\n", New: "\t\tpayload := data.Materialize()\n\t\terr := convertAndRepairInvalidUTF8(payload, v)\n"},
+	)
 	// ---- C06
 	ast := "proxy/admin_stream_transfer.go"
 	addVariants(
